@@ -253,6 +253,8 @@ def edges():
               '__end_publish\n__end_publish', '__begin_publish\n__begin_publish', 'class A { __end_publish };', 'enum class', 'enum class A : B {', 'union', 'union {', 'concept', 'requires', 'template<class T> concept C = ',
               'template<class T> requires', 'int x = [', 'int x = []', 'int x = [](', 'int x = []()', 'int x = []() {', 'int x = new', 'int x = new int[', 'int x = delete', 'int x = throw', 'int x = this',
               'int x = a ? : b;', 'int x = a::', 'int x = ::', 'int x = a::template ', 'int x = typename', 'int x = (int', 'int x = (int)', 'int x = static_cast<', 'int x = static_cast<int>(', 'int x = 1 2;',
+              'struct K : K {', 'struct K : K { int r; };', 'struct K; struct K : K { int r; }; K k;', 'K{}struct K:virtual private K{r', 'struct A : B {}; struct B : A {}; B b;',
+              'decltype(t)y', 'decltype(undeclared_name) y;', 'decltype(undeclared(1)) f();', 'template<class T> decltype(T::x) g();',
               'A::A', 'A::~A', 'A::operator', '::', ':::', '::::', '...', '....', '->', '->*', '.*', '<=>', '<=>=']:
         add('structure', s)
         add('structure', s + '\n')
